@@ -1055,7 +1055,7 @@ def run_c18(ctx):
         if op == "displayKey":
             return a[1] == "public"
         if op in ("debugKey", "serializeKey", "displayUnsealed", "serializeUnsealed", "fieldFooter", "fieldPayload",
-                  "fieldKey", "ctorKey", "keyInto", "sealedMethod", "sealedMethodPub"):
+                  "fieldKey", "ctorKey", "keyInto", "hashKey", "sealedMethod", "sealedMethodPub"):
             return False
         if op == "publicKey":
             return a[1] == "secret"
